@@ -105,3 +105,11 @@ Definition side_ok (g : guard_kind) (chain : list pk_test) (max_attempts : nat) 
   | MPlain _ => shape3_free g f
   | MMerge => uniform_scope max_attempts f && no_dealt chain f && shape3_free g f
   end.
+
+(* the demand on a run, as a proposition (the boolean spec_ok_obs decides it) *)
+Definition meets_C01 (f : forest) (o : res (list (string * vt))) : Prop :=
+  match o with
+  | Ok r => r = spec_C01 f
+  | Err CRE => True
+  | Err _ => False
+  end.
